@@ -154,8 +154,17 @@ TRACESTATE_KEY = b"tracestate"
 
 
 def encode_metadata(metadata: dict[str, str]) -> pa.KeyValueMetadata:
-    """Encode a plain ``dict[str, str]`` to ``pa.KeyValueMetadata`` with bytes keys/values."""
-    return pa.KeyValueMetadata({k.encode(): v.encode() for k, v in metadata.items()})
+    r"""Encode a plain ``dict[str, str]`` to ``pa.KeyValueMetadata`` with bytes keys/values.
+
+    Values are free text (log and exception messages among them) and a Python
+    ``str`` may hold lone surrogates -- file names decoded with
+    ``surrogateescape`` routinely end up in error messages.  UTF-8 cannot
+    encode those, so they are written as ``\udcXX`` escapes instead of
+    letting ``UnicodeEncodeError`` escape from the middle of an error reply.
+    """
+    return pa.KeyValueMetadata(
+        {k.encode("utf-8", "backslashreplace"): v.encode("utf-8", "backslashreplace") for k, v in metadata.items()}
+    )
 
 
 # ---------------------------------------------------------------------------
